@@ -37,6 +37,29 @@ PROPS = {
         'trusted_base': TB_M1 + TB_M2 + ['Solidity storage layout as written in Artela/Spec/Solidity.lean (solPacked, solString) and, independently, in the Go harness (putString)'],
         'assumptions': ['storage words are < 2^256 (common.Hash)', 'Go append returns capacity >= length'],
     },
+    'C11': {
+        'modules': ['Artela.Props.C11'],
+        'runs': [{'layer': 'tracer'}],
+        'trusted_base': TB_M1 + ['harness-side bookkeeping of accepted registrations (conflict classes, paths) computed from the history alone'],
+        'assumptions': [],
+        'partial': 'c11_full is FALSE for the current code (c11_full_is_false; witnesses c11_witness_*): known finding D14 (conflicting registrations). '
+                   'Proved for every state: refusals pure, non-conflicting registration reachable through both lookups at one node, change goes to '
+                   'the indexed node, child names exact. History-level agreement for non-conflicting registrations is checked by the S both-see probes.',
+    },
+    'C10': {
+        'modules': ['Artela.Props.C10'],
+        'runs': [{'layer': 'tracer'}, {'layer': 'journal'}],
+        'trusted_base': TB_M1 + TB_M2,
+        'assumptions': ['the opcodes pass scope.Contract.Address() (journal layer, single frame); multi-frame attribution (DELEGATECALL/CALLCODE/CREATE) is exercised by the frame layer when present'],
+        'partial': 'tracer part proved (index = cursor, change local to one node, list law = collapsed history); frame-level attribution by correspondence',
+    },
+    'C13': {
+        'modules': ['Artela.Props.C13'],
+        'runs': [{'layer': 'tracer'}],
+        'trusted_base': TB_M1 + ['the four balances of a transfer are read by the harness from the real StateDB before and after a real Transfer and handed to the model'],
+        'assumptions': ['Call/create invoke TransferWithRecord exactly once per frame reaching the transfer (frame layer)'],
+        'partial': 'tracer part proved (order, index, list law, root-only); exactly-the-transfers at frame level by correspondence',
+    },
     'C15': {
         'modules': ['Artela.Props.C15', 'Artela.Proofs.GenFacts'],
         'runs': [{'layer': 'cancun'}],
